@@ -19,8 +19,12 @@ ReaderLayout(ww) ==
    LET L == ExpLayout(ww) IN
    [ok |-> TRUE, big |-> <<>>, prefix |-> 0, n |-> L.n, cd_start |-> L.cd_start, cd_end |-> L.cd_end, eocd |-> L.eocd, z64 |-> L.z64,
     gaps |-> L.gaps, overlaps |-> L.overlaps,
-    cd |-> [i \in 1..Len(L.cd) |-> [k \in DOMAIN L.cd[i] \cup {"dname", "dfcomment", "aes"} |->
-               IF k = "dname" THEN L.cd[i].name ELSE IF k = "dfcomment" THEN NoName ELSE IF k = "aes" THEN <<>> ELSE L.cd[i][k]]],
+    \* sizes and offset are what a reader DECODES from the 32-bit fields and the ZIP64 record (ZipFormat!ParseZ64), not the writer's own values
+    cd |-> [i \in 1..Len(L.cd) |->
+              LET c == L.cd[i] p == ParseZ64(c.usize32, c.csize32, c.off32, c.zcount = 1, c.zvals) IN
+              [k \in DOMAIN c \cup {"dname", "dfcomment", "aes"} |->
+               IF k = "dname" THEN c.name ELSE IF k = "dfcomment" THEN NoName ELSE IF k = "aes" THEN <<>>
+               ELSE IF k = "usize" THEN p.us ELSE IF k = "csize" THEN p.cs ELSE IF k = "off" THEN p.off ELSE c[k]]],
     lf |-> L.lf]
 TailOf(ww) == [p |-> 0, b |-> ww.cdstart, s |-> CdSize(ww.files), n |-> Len(ww.files), c |-> ww.comment.len, g |-> 0,
                z |-> NeedZ64End(Len(ww.files), CdSize(ww.files), ww.cdstart), sent |-> FALSE, dsent |-> FALSE]
